@@ -221,10 +221,21 @@ static int in_class(err_t rc, const err_t* exp, int n)
 	return 0;
 }
 
+static uint64_t ctx_digest(void)
+{
+	uint64_t h = SK_DG_INIT;
+	sk_dg_add(&h, C.a, sizeof(C.a));
+	sk_dg_add(&h, C.n, sizeof(C.n));
+	sk_dg_add(&h, &C.tape_mode, sizeof(C.tape_mode));
+	sk_dg_add(&h, &C.no_rng, sizeof(C.no_rng));
+	return h;
+}
+
 static void run_badarg(const fc_desc* d, unsigned di, uint64_t seed, const sk_mask* mask, sk_result* out)
 {
 	uint64_t fill = sk_mix(seed, 1), ps = sk_mix(seed, 2), ss = sk_mix(seed, 3);
 	int j, nsingle = 0, nown = 0, e = 0, pair;
+	uint64_t valid_dg = 0;
 	err_t exp[12], rc;
 	char cls[96];
 	sk_rng pr;
@@ -266,6 +277,7 @@ static void run_badarg(const fc_desc* d, unsigned di, uint64_t seed, const sk_ma
 			sk_heap_reset(fill);
 			ctx_init(ps, ss);
 			d->gen(&C);
+			valid_dg = sk_heap_digest() ^ sk_mix(ctx_digest(), 5);
 			if (j1 == nown)
 				C.no_rng = 1, exp[0] = ERR_BAD_RNG, exp[1] = ERR_BAD_ANG, n1 = 2;   /* bels calls its generator of candidates "ang" */
 			else
@@ -276,6 +288,12 @@ static void run_badarg(const fc_desc* d, unsigned di, uint64_t seed, const sk_ma
 					C.no_rng = 1, exp[n1] = ERR_BAD_RNG, exp[n1 + 1] = ERR_BAD_ANG, n2 = 2;
 				else
 					n2 = d->bad(&C, j2, exp + n1);
+			}
+			if (pair && (sk_heap_digest() ^ sk_mix(ctx_digest(), 5)) == valid_dg)
+			{
+				/* the two mutations undid each other: the arguments are the valid ones again */
+				sk_count("probe.variants_cancelled", 1);
+				continue;
 			}
 			sk_text(out, "  about to call with invalid variant %d (second %d)", j1, j2);
 			rc = do_call(d);
